@@ -52,6 +52,73 @@ type Case struct {
 	// RectAfterReset: the caller gives the viewBox first (Reset) and aims the Renderer at its
 	// rectangle afterwards (SetRasterizer); either order defines the same map.
 	RectAfterReset bool `json:"rect_after_reset,omitempty"`
+	// Fills, per path (missing = 0): 0 opaque black; 1 opaque black, and a path that is not drawn
+	// (transparent paint) comes right before; 2 a two-stop gradient; 3 a gradient right after a path
+	// that is not drawn; 4 a gradient right after a path outside the level-of-detail range.
+	Fills []int `json:"fills,omitempty"`
+}
+
+// applyWithFills drives c.Ops into z; the styling that selects each path's paint, and the paths that
+// are not drawn, are added here (they are no part of the geometry under test). Rasteriser calls made
+// while such a hidden path is open are cut out of the log: whether a hidden path stays silent is
+// property C04's business.
+func applyWithFills(z *render.Renderer, rr *rast.Recorder, c Case) {
+	path := 0
+	hidden := func(lod bool) {
+		n := len(rr.Calls)
+		if lod {
+			z.SetLOD(float32(c.Rect[3])+1, float32(c.Rect[3])+2)
+		} else {
+			z.SetCReg(0, false, ivg.RGBAColor(color.RGBA{}))
+		}
+		z.StartPath(0, 1, 2)
+		z.AbsQuadTo(3, 4, 5, 6)
+		z.RelSmoothCubeTo(1, 1, 2, 2)
+		z.ClosePathEndPath()
+		if lod {
+			z.SetLOD(0, float32(math.Inf(1)))
+		}
+		rr.Calls = rr.Calls[:n]
+	}
+	for _, o := range c.Ops {
+		if o.K == ops.StartPath {
+			f := 0
+			if path < len(c.Fills) {
+				f = c.Fills[path]
+			}
+			path++
+			switch f {
+			case 1, 3:
+				hidden(false)
+			case 4:
+				hidden(true)
+			}
+			if f >= 2 {
+				z.SetNSel(10)
+				for j, v := range []float32{1.0 / 64, 0, 0.5, 0, 1.0 / 64, 0.5} {
+					z.SetNReg(uint8(6-j), false, v)
+				}
+				z.SetNReg(0, true, 0)
+				z.SetNReg(0, true, 1)
+				z.SetCSel(10)
+				z.SetCReg(0, true, ivg.RGBAColor(color.RGBA{0xff, 0, 0, 0xff}))
+				z.SetCReg(0, true, ivg.RGBAColor(color.RGBA{0, 0, 0x80, 0x80}))
+				z.SetCSel(0)
+				z.SetCReg(0, false, ivg.RGBAColor(ivg.EncodeGradient(10, 10, 0, 1, 2)))
+			} else {
+				z.SetCSel(0)
+				z.SetCReg(0, false, ivg.RGBAColor(color.RGBA{0, 0, 0, 0xff}))
+			}
+		}
+		ops.Apply(z, o)
+	}
+}
+
+func fillOf(c Case, path int) int {
+	if path >= 0 && path < len(c.Fills) {
+		return c.Fills[path]
+	}
+	return 0
 }
 
 const eps32 = 1.0 / (1 << 23)
@@ -96,7 +163,7 @@ func checkGeometry(c Case) error {
 		z.SetRasterizer(target, rect)
 		z.Reset(gen.VB(vb), ivg.DefaultPalette)
 	}
-	ops.ApplyAll(&z, c.Ops)
+	applyWithFills(&z, rr, c)
 	rr.Calls = rr.Calls[mark:]
 
 	// reference
@@ -171,7 +238,11 @@ func checkGeometry(c Case) error {
 			if call.R != rect || call.SP != (image.Point{}) {
 				return harness.Violatef("c05/draw-rect", "Draw(%v, sp=%v), expected the target rectangle %v at (0,0)", call.R, call.SP, rect)
 			}
-			if call.P == nil || call.P.Kind != "uniform" || call.P.Uniform != (color.RGBA{0, 0, 0, 0xff}) {
+			if f := fillOf(c, pathOf[i]); f >= 2 {
+				if call.P == nil || call.P.Kind != "gradient" {
+					return harness.Violatef("c05/draw-paint", "Draw paint %v, expected the gradient", call.P)
+				}
+			} else if call.P == nil || call.P.Kind != "uniform" || call.P.Uniform != (color.RGBA{0, 0, 0, 0xff}) {
 				return harness.Violatef("c05/draw-paint", "Draw paint %v, expected opaque black", call.P)
 			}
 		default:
@@ -222,7 +293,28 @@ func genCase(t *rapid.T) Case {
 		c.ViewBox[i] = ops.F32(v)
 	}
 	c.Rect = [4]int{rapid.IntRange(-50, 200).Draw(t, "rx"), rapid.IntRange(-50, 200).Draw(t, "ry"), rapid.IntRange(1, 600).Draw(t, "rw"), rapid.IntRange(1, 600).Draw(t, "rh")}
-	if rapid.IntRange(0, 11).Draw(t, "hugesize") == 0 {
+	natural := false
+	if !far && rapid.IntRange(0, 7).Draw(t, "natural") == 0 {
+		// the graphic at (about) its natural size: a viewBox of whole or fractional size drawn into
+		// the whole number of pixels below or above it, times 1-3
+		natural = true
+		fr := []float32{0, 0, 0.25, 0.5, 0.75, 0.984375}
+		w := float32(rapid.IntRange(1, 200).Draw(t, "nat.w")) + rapid.SampledFrom(fr).Draw(t, "nat.wf")
+		h := float32(rapid.IntRange(1, 200).Draw(t, "nat.h")) + rapid.SampledFrom(fr).Draw(t, "nat.hf")
+		x0, y0 := float32(rapid.IntRange(-64, 64).Draw(t, "nat.x"))/4, float32(rapid.IntRange(-64, 64).Draw(t, "nat.y"))/4
+		c.ViewBox = [4]ops.F32{ops.F32(x0), ops.F32(y0), ops.F32(x0 + w), ops.F32(y0 + h)}
+		k := rapid.IntRange(1, 3).Draw(t, "nat.k")
+		up := rapid.Bool().Draw(t, "nat.up")
+		px := func(v float32) int {
+			n := int(v)
+			if up && float32(n) != v {
+				n++
+			}
+			return n * k
+		}
+		c.Rect[2], c.Rect[3] = px(w), px(h)
+	}
+	if !natural && rapid.IntRange(0, 11).Draw(t, "hugesize") == 0 {
 		// a very long strip or a huge canvas: sides beyond 16 bits
 		side := rapid.SampledFrom([]int{65535, 65536, 65537, 70000, 1 << 20, 1<<24 + 1}).Draw(t, "hugeside")
 		if rapid.Bool().Draw(t, "hugew") {
@@ -351,6 +443,7 @@ func genCase(t *rapid.T) Case {
 			}
 		}
 		c.Ops = append(c.Ops, ops.OpDraw(ops.ClosePathEndPath))
+		c.Fills = append(c.Fills, rapid.SampledFrom([]int{0, 0, 0, 0, 1, 2, 3, 4}).Draw(t, "fill"))
 	}
 	return c
 }
@@ -405,6 +498,20 @@ func classify(c Case) (bool, []string) {
 		labels = append(labels, "target-rectangle-without-pixels")
 		if c.Rect[2] < 0 || c.Rect[3] < 0 {
 			labels = append(labels, "target-rectangle-with-min-beyond-max")
+		}
+	}
+	if vw, vh := float32(c.ViewBox[2])-float32(c.ViewBox[0]), float32(c.ViewBox[3])-float32(c.ViewBox[1]); !c.NoPixels && (vw != float32(int(vw)) || vh != float32(int(vh))) &&
+		(c.Rect[2] == int(vw) || c.Rect[2] == int(vw)+1) && (c.Rect[3] == int(vh) || c.Rect[3] == int(vh)+1) {
+		labels = append(labels, "fractional-viewbox-size-drawn-into-the-next-whole-number-of-pixels")
+	}
+	for _, f := range c.Fills {
+		switch f {
+		case 1:
+			labels = append(labels, "path-right-after-one-that-is-not-drawn")
+		case 2:
+			labels = append(labels, "gradient-filled-path")
+		case 3, 4:
+			labels = append(labels, "gradient-filled-path-right-after-one-that-is-not-drawn")
 		}
 	}
 	if c.RectAfterReset {
